@@ -300,6 +300,36 @@ def babinetBackFullT (cosf sinf sqrtf : K → K) (twoPi : K) (p0 p1 M0 M1 : Nat)
               (fun i j => one - fpm i j) cbar.fn
   Tab.ofFn p0 p1 fun i j => cbar.fn i j - t.fn i j
 
+/-- mask-and-back adjoint with explicit basis matrices (the forward's own bases), tabulated: `fpmBack Cx.conj 1 true` -/
+def fpmBackT (p0 p1 M0 M1 : Nat) (Eo1 Ei1 mask Eo2 Ei2 y : Mat (Cx K)) : Tab (Cx K) :=
+  let eb := dftBackT p0 M0 M1 p1 Eo2 y Ei2
+  let inter := Tab.ofFn M0 M1 fun i j => eb.fn i j * Cx.conj (mask i j)
+  dftBackT M0 p0 p1 M1 Eo1 inter.fn Ei1
+
+/-- Babinet adjoint with explicit bases: `cbar − B(cbar)`, `cbar = conj(L) ⊙ y`, `mask` is the array the forward
+multiplied by (i.e. `1 − fpm`) -/
+def babinetBackT (p0 p1 M0 M1 : Nat) (Eo1 Ei1 mask Eo2 Ei2 lyot y : Mat (Cx K)) : Tab (Cx K) :=
+  let cbar := Tab.ofFn p0 p1 fun i j => Cx.conj (lyot i j) * y i j
+  let t := fpmBackT p0 p1 M0 M1 Eo1 Ei1 mask Eo2 Ei2 cbar.fn
+  Tab.ofFn p0 p1 fun i j => cbar.fn i j - t.fn i j
+
+/-- `DM.render_backprop` given the forward's own ingredients: transfer function `H`, lattice `(lo, step)` per axis,
+resize mode (`0` none, `1` crop at `(oy, ox)`, `2` pad at `(oy, ox)`), real scale; DFT sums written out -/
+def dmBackGivenT (cosf sinf : K → K) (twoPi : K) (m n k loy sty lox stx M N mode : Nat) (oy ox : Int) (scale : K)
+    (H : Mat (Cx K)) (y : Mat K) : Tab K :=
+  let one : K := Num.ofInt 1
+  let F1 := Tab.ofFn m m fun j l => cis cosf sinf twoPi (Num.ofInt (((j * l) % m : Nat) : Int) / Num.ofInt (m : Int))
+  let F2 := Tab.ofFn n n fun j l => cis cosf sinf twoPi (Num.ofInt (((j * l) % n : Nat) : Int) / Num.ofInt (n : Int))
+  let yr0 : Mat K := if mode = 1 then crop2 oy ox y else if mode = 2 then pad2 M N oy ox y else y
+  let yr := Tab.ofFn m n fun i j => Cx.ofReal (scale * yr0 i j)
+  let u1 := Tab.ofFn m n (matmul m F1.fn yr.fn)
+  let Y := Tab.ofFn m n (matmul n u1.fn F2.fn)
+  let Z := Tab.ofFn m n fun i j => Y.fn i j * Cx.conj (H i j)
+  let v1 := Tab.ofFn m n (matmul m (fun i j => Cx.conj (F1.fn i j)) Z.fn)
+  let W := Tab.ofFn m n (matmul n v1.fn (fun i j => Cx.conj (F2.fn i j)))
+  let norm : K := one / (Num.ofInt (m : Int) * Num.ofInt (n : Int))
+  Tab.ofFn k k fun i j => norm * (W.fn (loy + i * sty) (lox + j * stx)).re
+
 /-! ### `DM.render_backprop` (no rotation, `upsample = 1`) with every step modelled: lattice indices, transfer
 function `fft2(ifftshift(ifn))·ramps`, crop/pad offsets, DFT sums -/
 
